@@ -18,6 +18,7 @@ import itertools
 import multiprocessing
 import os
 import random
+import signal
 import traceback
 import zlib
 from collections import Counter
@@ -47,9 +48,10 @@ from harness.universe import (
 )
 
 NMAX = {"quick": 5, "thorough": 6}
-CONFIGS_PER_COMBO = {"quick": 3, "thorough": 36}
+CONFIGS_PER_COMBO = {"quick": 6, "thorough": 60}
 OPTIONS = ("default", "smallest", "expand_verified")
 MAX_RESUMES = 400
+CASE_TIMEOUT_S = 120  # a case normally takes < 0.1 s; a hang is reported as search-crash
 
 # --------------------------------------------------------------------------------------------------------------
 # controlled nondeterminism
@@ -256,6 +258,24 @@ def search(start, pack_name: str, db_name: str, option: str, schedule: tuple):
             raise
 
 
+class CaseTimeout(Exception):
+    pass
+
+
+@contextlib.contextmanager
+def time_limit(seconds: int):
+    def handler(signum, frame):
+        raise CaseTimeout(f"case did not finish within {seconds} s")
+
+    old = signal.signal(signal.SIGALRM, handler)
+    signal.alarm(seconds)
+    try:
+        yield
+    finally:
+        signal.alarm(0)
+        signal.signal(signal.SIGALRM, old)
+
+
 def spec_signature(spec) -> Tuple[int, int]:
     """(number of rules, checksum of the rule set) -- to count distinct specifications."""
     items = sorted(
@@ -335,7 +355,9 @@ def run_case(arg) -> dict:
     start = class_from_repr(start_repr)
     out = {"case": case, "spec": None, "violations": [], "fired": None, "resumes": 0}
     FIRED.clear()
-    with contracts_installed(), patched(tuple(schedule), rng_seed):
+    with contracts_installed(), patched(tuple(schedule), rng_seed), time_limit(
+        CASE_TIMEOUT_S
+    ):
         try:
             spec, _, resumes = search(start, pack_name, db_name, option, tuple(schedule))
             out["resumes"] = resumes
